@@ -142,6 +142,7 @@ let parse_cfg s =
       | [ t; "rx" ] -> (nh t, RoleRx)
       | [ t; "tx" ] | [ t; "tx"; _ ] -> (nh t, RoleTx false)
       | [ t; "txc" ] | [ t; "txc"; _ ] -> (nh t, RoleTx true)
+      | [ t; (("tx" | "txon") as r); c; st ] -> (nh t, role_of_descriptor (nh st) (z_of_i64hex c) (r = "txon"))
       | [ t; "txon"; _ ] -> (nh t, RoleTxOn false)
       | [ t; "txcon"; _ ] -> (nh t, RoleTxOn true)
       | [ t; "app" ] -> (nh t, RoleApp)
@@ -153,7 +154,7 @@ let parse_cycles s =
   List.filter_map
     (fun item ->
       match String.split_on_char ':' item with
-      | [ t; ("tx" | "txc" | "txon" | "txcon"); c ] -> Some (nh t, z_of_i64hex c)
+      | [ t; ("tx" | "txc" | "txon" | "txcon"); c ] | [ t; ("tx" | "txon"); c; _ ] -> Some (nh t, z_of_i64hex c)
       | [ t; "tx" ] -> Some (nh t, z_of_int 0)
       | [ t; "txc" ] -> Some (nh t, z_of_int 1000000)
       | _ -> None)
@@ -326,18 +327,18 @@ let handle_trace line name cfgs toks =
         else if x.t_armed then try_events [ Tick t; TickTake t; Lock t ]
         else begin
           (* disarmed: the tick must have been buffered before the Apply that stopped the ticker *)
-          let rec split acc = function
-            | [] -> None
-            | (Apply t' as a) :: older when t' = t -> Some (List.rev older, a :: acc)
-            | e :: older -> split (e :: acc) older
+          (* candidates: right before each earlier Apply of t, the most recent first (the Apply that
+             stopped the ticker need not be the last one: a second wake-up may have re-read "disabled") *)
+          let rec try_at acc = function
+            | [] -> false
+            | (Apply t' as a) :: older when t' = t -> (
+                let tr = List.rev older @ [ Tick t ] @ (a :: acc) @ [ TickTake t; Lock t ] in
+                match run (init cfg) tr with
+                | Some s -> st := s; completed := List.rev tr; true
+                | None -> try_at (a :: acc) older)
+            | e :: older -> try_at (e :: acc) older
           in
-          match split [] !completed with
-          | None -> false
-          | Some (before, from_apply) -> (
-              let tr = before @ [ Tick t ] @ from_apply @ [ TickTake t; Lock t ] in
-              match run (init cfg) tr with
-              | Some s -> st := s; completed := List.rev tr; true
-              | None -> false)
+          try_at [] !completed
         end
     | _ -> false
   in
@@ -347,6 +348,19 @@ let handle_trace line name cfgs toks =
          match o.ev with
          | None when String.length o.raw > 3 && String.sub o.raw 0 3 = "WD." ->
              raise (Rejected (idx, o.raw, "I5 lost toggle: the wake-up token was received from the channel but the loop did not come back to re-read the flag (a receive on the wake-up channel that the model does not have)"))
+         | None when String.length o.raw > 3 && String.sub o.raw 0 3 = "PN." ->
+             let msg = match String.split_on_char '.' o.raw with [ _; _; h ] -> unhex h | _ -> "" in
+             raise (Rejected (idx, o.raw, "the runner function of this thread PANICKED: " ^ msg))
+         | None when String.length o.raw > 3 && String.sub o.raw 0 3 = "NT." -> (
+             (* the harness saw no tick for more than a second while the loop sat in its select: fine unless
+                the model says the ticker is running there *)
+             match String.split_on_char '.' o.raw with
+             | [ _; t ] -> (
+                 match tx_of !st (nh t) with
+                 | Some x when is_sel x && x.t_armed && (not x.t_wake) && not (!st).cancelled ->
+                     raise (Rejected (idx, o.raw, "enable did not take effect: no tick for more than a second (cycle time <= 1 ms) although the model's ticker is armed and the loop is parked: " ^ thread_str (TTx x)))
+                 | _ -> ())
+             | _ -> ())
          | None -> raise (Rejected (idx, o.raw, "call outside the modelled interface sequence"))
          | Some e ->
              let stepped =
@@ -394,7 +408,7 @@ let handle_trace line name cfgs toks =
      let at_discipline_event =
        match List.nth_opt obs idx with
        | Some { ev = Some e; _ } -> is_discipline_event e
-       | Some { ev = None; raw; _ } -> not (String.length raw > 3 && String.sub raw 0 3 = "WD.")
+       | Some { ev = None; raw; _ } -> not (String.length raw > 3 && (String.sub raw 0 3 = "WD." || String.sub raw 0 3 = "NT."))
        | None -> false
      in
      (match prop_pf with
